@@ -67,6 +67,55 @@ def dev_chooser(dev: Dict[int, str]):
     return factory
 
 
+STOPS = {
+    "release": lambda op, path: op == "LockRel",
+    "flock": lambda op, path: op == "LockFlock",
+    "flip": lambda op, path: op in ("write_file", "write_file_cas") and P.path_class(path) == "hint",
+    "metaw": lambda op, path: op == "write_file" and P.path_class(path) == "meta",
+    "end": lambda op, path: False,
+}
+
+
+def script_chooser(script: List[Tuple[str, str]]):
+    """script = [(actor, stop)]: run `actor` while it is enabled and not parked before an operation matching STOPS[stop]
+    ("step:<n>" = exactly n steps); when the script is used up, first enabled."""
+    def factory(_sc: S.Scheduler):
+        st = {"k": 0, "n": 0}
+
+        def choose(enabled: List[str], s: S.Scheduler) -> Optional[str]:
+            while st["k"] < len(script):
+                a, stop = script[st["k"]]
+                if a in enabled:
+                    if stop.startswith("step:"):
+                        if st["n"] < int(stop[5:]):
+                            st["n"] += 1
+                            return a
+                    else:
+                        op, path = s.actors[a].pending or ("", "")
+                        if not STOPS[stop](op, path):
+                            return a
+                st["k"] += 1
+                st["n"] = 0
+            return enabled[0] if enabled else None
+        return choose
+    return factory
+
+
+def lock_handoff_scripts(n: int) -> List[List[Tuple[str, str]]]:
+    """Three committers and the file lock at open / flock granularity: X holds the lock and is about to release it, Y has
+    OPENED the lock file and is about to flock, X releases, Z acquires and goes on to its pointer flip, Y's flock is
+    decided only now -- then both finish.  (flock locks the inode Y opened; what happened to the path meanwhile matters.)"""
+    out = []
+    names = [f"A{i}" for i in range(n)]
+    for x in names:
+        for y in names:
+            for z in names:
+                if len({x, y, z}) == 3:
+                    for zstop in ("flip", "metaw"):
+                        out.append([(x, "release"), (y, "flock"), (x, "step:1"), (z, zstop), (y, "flip"), (z, "end"), (y, "end"), (x, "end")])
+    return out
+
+
 def explore(ctx, case: Dict[str, Any], max_preempt: int, limit: int):
     """Bounded-preemption enumeration by re-execution (runs are deterministic)."""
     from collections import deque
@@ -304,6 +353,15 @@ def run(ctx) -> None:
         import random as _r
         res = P.run_case(ctx.scratch, _fix_case(case), lambda sc, seed=seed: S.random_chooser(_r.Random(seed), 0.35), tag="c01r")
         runs.append((case, [("random", seed)], res))
+    # 4. the file lock at open / flock granularity: lock hand-off among three committers (local backend)
+    hand = [o for o in OPSETS3 if len(o) == 3][:1] + [[{"kind": "append", "rows": [{"x": 100 * (i + 1)}]} for i in range(3)]]
+    for ops in hand:
+        case = {"ops": ops, "clock": "tick", "topology": "separate", "fine_locks": True}
+        scripts = lock_handoff_scripts(3)
+        for sc_ in (scripts if not quick else scripts[::2]):
+            res = P.run_case(ctx.scratch, _fix_case(case), script_chooser(sc_), tag="c01h")
+            runs.append((case, [("script", sc_)], res))
+    ctx.stats["lock_handoff_schedules"] = sum(1 for _c, d, _r in runs if d and d[0][0] == "script")
     ctx.stats["schedules"] = len(runs)
     ctx.stats["conflict_retries_observed"] = sum(1 for _c, _d, r in runs for e in r.log if e["op"] == "Sleep")
     ctx.stats["by_clock"] = {c: sum(1 for k, _d, _r in runs if k["clock"] == c) for c in ("frozen", "coarse", "tick")}
@@ -322,7 +380,9 @@ def replay(ctx, payload) -> int:
         print("replay: no concrete case in payload")
         return 2
     dev = payload["case"].get("deviations", [])
-    if dev and dev[0][0] == "random":
+    if dev and dev[0][0] == "script":
+        res = P.run_case(ctx.scratch, _fix_case(case), script_chooser([tuple(x) for x in dev[0][1]]), tag="replay")
+    elif dev and dev[0][0] == "random":
         import random as _r
         res = P.run_case(ctx.scratch, _fix_case(case), lambda sc: S.random_chooser(_r.Random(dev[0][1]), 0.35), tag="replay")
     else:
